@@ -98,3 +98,16 @@ Theorem C19_every_request_routed : forall req,
   exists vid a, mk_req vid a = Some req /\ In vid (map (fun r => fst (fst r)) handler_routes).
 Proof. exact every_request_routed. Qed.
 Print Assumptions C19_every_request_routed.
+
+(* and the chain before it: whatever frame the model's decoder builds from a header
+   and a body is the request variant that the source's own tables name for that
+   opcode — Generated.decode_dispatch (the match in parse_request: which body parser)
+   followed by Generated.parser_variants (the if-chain or match inside that parser:
+   which BinaryRequest variant), both translated from binary_codec.rs on every run.
+   With C19_routes_are_source: opcode -> parser -> variant -> handler -> filter is
+   the source's at every link. *)
+Theorem C19_decoded_request_is_source_variant : forall h body req,
+  parse_body h body = DFrame req ->
+  exists a, a_h a = h /\ mk_req (source_variant (h_opcode h)) a = Some req.
+Proof. exact decoded_request_is_source_variant. Qed.
+Print Assumptions C19_decoded_request_is_source_variant.
